@@ -261,9 +261,16 @@ func genTable(rt *rapid.T, noChecksWithVirtual bool, st *stats.Collector) *table
 	}
 	nchecks := rapid.IntRange(0, 3).Draw(rt, "nchecks")
 	if noChecksWithVirtual && t.hasVirtual() && nchecks > 0 {
-		// region of finding C19-virtual-column-no-checks, excluded while it is listed
+		// region of finding C19-virtual-column-no-checks (CHECK constraints on a table with a
+		// VIRTUAL column), excluded while it is listed: either the checks or the VIRTUAL go
 		st.Excluded(findingVirtualChecks)
-		nchecks = 0
+		if rapid.Bool().Draw(rt, "keepChecks") {
+			for i := range t.cols {
+				t.cols[i].stored = t.cols[i].gen != nil
+			}
+		} else {
+			nchecks = 0
+		}
 	}
 	for i := 0; i < nchecks; i++ {
 		t.checks = append(t.checks, genCheckDef(rt, t, len(t.checks)))
@@ -1533,9 +1540,9 @@ func TestC19(t *testing.T) {
 		steps := rapid.IntRange(8, 30).Draw(rt, "steps")
 		for i := 0; i < steps && !mc.dead; i++ {
 			switch k := rapid.IntRange(0, 29).Draw(rt, "op"); {
-			case k < 10 || len(mc.rows) < 2:
+			case k < 8 || len(mc.rows) < 2:
 				mc.insert(rt)
-			case k < 13:
+			case k < 11:
 				mc.odku(rt)
 			case k < 23:
 				mc.update(rt)
